@@ -39,6 +39,10 @@ def run(ctx) -> None:
     from ._parser import parser_never_swallows, site_field_kinds
     parser_never_swallows(ctx, "C07.H.no-instruction-silently-dropped")
     site_field_kinds(ctx, "C07.H.address-field-is-the-line-address", make_interp(ctx.p), _sites)
+    # H: whole lines on token templates give records in which '::' follows the address only and nothing of a <symbol>
+    # annotation or comment survives
+    from .. import shapes as _shapes
+    _shapes.line_record_rule(ctx, make_interp(ctx.p), "C07.H.line-to-record")
     # P5: Lemma B is about a search over the whole stream from its first character (no pos/endpos, no slice)
     from ._matchrules import scan_rules
     scan_rules(ctx, "C07.P5.scan-starts-at-stream-start", "C07.P5.scan-over-whole-stream")
